@@ -123,7 +123,8 @@ fn gen(ch: &mut Ch, thorough: bool) -> Option<Case> {
         let ft = *ch.of(&[FT::U8, FT::F32, FT::T, FT::RefF32]);
         let mut fa = FA { eq: *ch.of(&A1S), ord: *ch.of(&A1S), peq: A1::None, pord: A1::None };
         let custom = |a: A1| matches!(a, A1::KeyEq | A1::KeyNonEq | A1::By);
-        if ft != FT::T && fa.eq != A1::Ignore && fa.ord != A1::Ignore && (custom(fa.eq) || custom(fa.ord)) {
+        let _ = custom;
+        if ft != FT::T && fa.eq != A1::Ignore && fa.ord != A1::Ignore {
             fa.peq = *ch.of(&[A1::None, A1::KeyEq, A1::KeyNonEq, A1::By]);
         }
         if ft == FT::U8 && fa.ord == A1::KeyEq && fa.eq == A1::None && fa.peq == A1::None {
@@ -224,6 +225,8 @@ fn program(c: &Case) -> (String, String) {
     };
     let mut s = String::new();
     s.push_str("use derive_ex::{derive_ex, Ex};\n");
+    // user traits that happen to be called like the std ones the assertion needs, implemented for the float types
+    s.push_str("#[allow(dead_code)] pub trait Eq {}\nimpl Eq for f32 {}\nimpl<'x> Eq for &'x f32 {}\n#[allow(dead_code)] pub trait Sized {}\n");
     s.push_str(&format!("{head}\npub {}\n", item.print()));
     if !c.with_partial_eq {
         s.push_str(&format!("impl{g} ::core::cmp::PartialEq for X{g} {{ fn eq(&self, _: &Self) -> bool {{ true }} }}\n"));
